@@ -116,13 +116,27 @@ var Props = map[string]*PropCfg{
 	},
 	"C10": {
 		ID: "C10", Level: "fault_enumeration", TextOnly: true,
-		RepoInstr: map[string]instrument.Options{".": {MapOrder: true, Step: true}, "internal/importgraph": {MapOrder: true}, "iohelp": {MapOrder: true, Alloc: true, Step: true}},
+		RepoInstr: map[string]instrument.Options{".": {MapOrder: true, Step: true, Globals: true}, "internal/importgraph": {MapOrder: true}, "iohelp": {MapOrder: true, Alloc: true, Step: true, Globals: true}},
 		Rule: "ReadFile reading through the simulated link. Inputs: every token string of length 1 and 2 over a 41-token vocabulary exhaustively (length 3 in the thorough tier), printed schemas in varied layouts (indent, CRLF, one-line, comments), the same torn at a random byte, with junk fragments inserted or appended (unterminated comments/strings, stray and non-UTF-8 bytes, partial tokens), token soup. Per input: one fault-free parse under a drawn chunk schedule with the completeness probe (accepted input + one fresh definition must fail or contain it), then a reader failure at EVERY byte offset (inputs <= 400 bytes; 64 sampled offsets beyond) bare, with partial data under a chunk schedule, and transiently, error values from a menu of 4 (wrapped io.EOF excluded). Oracles: no panic; step budget 2e5+200*len on the parser's loops; an error returned by the link => non-nil error from ReadFile; completeness; " +
 			"distinct_nontrivial counts distinct (input origin, outcome, schedule family) and (origin, fault kind, outcome) triples for faults that fired",
 		RandProgs: map[string]int{"quick": 20, "thorough": 80},
 		Runs:      map[string]int{"quick": 3200, "thorough": 90000},
 		Params:    map[string]map[string]int{"thorough": {"tokens3": 1}},
 		Assume:    []string{"an io.Reader error that wraps io.EOF is not in the fault menu: whether that is an I/O error or an end of file is not settled by the property"},
-		RealStub: map[string][]string{"real": {"tokenizer and parser of the working tree (instrumented: loop steps, map order)"}, "stub": {"the file: simnet link with chunk schedule and fault trace"}},
+		RealStub:  map[string][]string{"real": {"tokenizer and parser of the working tree (instrumented: loop steps, map order)"}, "stub": {"the file: simnet link with chunk schedule and fault trace"}},
+	},
+	"C14": {
+		ID: "C14", Level: "exploration", TextOnly: true,
+		RepoInstr: map[string]instrument.Options{
+			".":                    {MapOrder: true, Yield: true, Globals: true, Sync: true},
+			"internal/importgraph": {MapOrder: true, Yield: true, Sync: true},
+			"iohelp":               {MapOrder: true, Globals: true, Sync: true},
+		},
+		Rule: "one evaluation = one scenario of 2-4 concurrent calls drawn from {Generate under random options and import mode, Validate, Format, ReadFile} on ONE shared File (parsed, optionally with an import and with 1-8 slots of spare slice capacity), executed as real goroutines under a cooperative baton scheduler that can switch before every statement of the library (yield points inserted by source rewriting); schedule drawn from random-with-run-length or PCT strategies and recorded as an explicit switch list; map iteration order imposed per task. Oracles: every task's output bytes and error-ness == the same call alone under canonical map order; the same call repeated under another map order gives identical bytes; the shared File's visible content never changes; no spare-capacity slot or package-level variable is written by two tasks without ordering (logical write/write race); no panic; plus reader-chunking independence of ReadFile/Format; " +
+			"distinct_nontrivial counts distinct (task multiset, strategy, import?, spare?, switch-list hash) tuples, i.e. distinct interleavings",
+		RandProgs: map[string]int{"quick": 10, "thorough": 40},
+		Runs:      map[string]int{"quick": 640, "thorough": 12000},
+		Assume:    []string{"statement-level yields reach every interleaving that matters because the library has no atomics or locks of its own (R2 in DESIGN.md); sync/atomic calls introduced later are wrapped cooperatively", "read/write races on spare capacity are judged by their consequence (output differs from the solo run), not by fingerprints"},
+		RealStub:  map[string][]string{"real": {"tokenizer, parser, validator, formatter, generator of the working tree (instrumented: yield before every statement, map order, sync wrappers)", "import loader reading real files from a temp dir"}, "stub": {"Go scheduler: cooperative baton scheduler, one runnable goroutine at a time", "Go map iteration order: chosen per task by the simulator"}},
 	},
 }
